@@ -204,7 +204,7 @@ func (t *Trie) PrefixSearch(key string) []string {
 		ret = append(ret, key)
 	}
 	for _, ch := range node.children {
-		stack = append(stack, trieFrame{ch.val, 0, ch.node})
+		stack = append(stack, trieFrame{ch.val, int32(buf.Len()), ch.node})
 	}
 
 	for len(stack) > 0 {
@@ -212,23 +212,14 @@ func (t *Trie) PrefixSearch(key string) []string {
 		cur := stack[last]
 		stack = stack[:last]
 
+		buf.Truncate(int(cur.depth))
 		buf.WriteRune(cur.r)
 		if cur.node.isEnd {
 			ret = append(ret, buf.String())
 		}
 
-		if len(cur.node.children) == 0 {
-			if len(stack) == 0 {
-				break
-			}
-
-			back := int(cur.depth + 1 - stack[last-1].depth)
-			buf.Truncate(buf.Len() - back)
-			continue
-		}
-
 		for _, child := range cur.node.children {
-			stack = append(stack, trieFrame{child.val, cur.depth + 1, child.node})
+			stack = append(stack, trieFrame{child.val, int32(buf.Len()), child.node})
 		}
 	}
 
@@ -274,7 +265,7 @@ func (t *Trie) FuzzySearch(key string) []string {
 			ret = append(ret, key[len(key)-node.size:])
 		}
 		for _, ch := range node.children {
-			stack = append(stack, trieFrame{ch.val, 0, ch.node})
+			stack = append(stack, trieFrame{ch.val, int32(buf.Len()), ch.node})
 		}
 
 		for len(stack) > 0 {
@@ -282,23 +273,14 @@ func (t *Trie) FuzzySearch(key string) []string {
 			cur := stack[last]
 			stack = stack[:last]
 
+			buf.Truncate(int(cur.depth))
 			buf.WriteRune(cur.r)
 			if cur.node.isEnd {
 				ret = append(ret, buf.String())
 			}
 
-			if len(cur.node.children) == 0 {
-				if len(stack) == 0 {
-					break
-				}
-
-				back := int(cur.depth + 1 - stack[last-1].depth)
-				buf.Truncate(buf.Len() - back)
-				continue
-			}
-
 			for _, child := range cur.node.children {
-				stack = append(stack, trieFrame{child.val, cur.depth + 1, child.node})
+				stack = append(stack, trieFrame{child.val, int32(buf.Len()), child.node})
 			}
 		}
 
